@@ -11,12 +11,14 @@
      always; exact field: d <> 0), instead of "jacobian = Ok J -> ...";
    * jacobian_calls needs (a + d) - d = a, i.e. ring laws: on f64 the restored coordinate may
      drift by an ulp for non-dyadic data (the float model reproduces the drift; tie).
-   Not proved here (gap): jacobian_entry (entry (i,j) = forward quotient) and jacobian_affine
-   (J = M exactly for x -> Mx + c over a field) -- covered by the correspondence check and the
-   exactness oracle of driver/c18.py only. *)
+   * jacobian_entry likewise needs the ring laws (the perturbed point of column j is x + d e_j
+     only if the earlier coordinates were restored exactly);
+   * in jacobian_affine the map x -> Mx + c is the textbook sum [aff] over the entries
+     M[i,k] = [ment M i k] (Appendix E conventions), the conclusion is equality of records.
+   Not proved: the O(delta) truncation bound for smooth maps and float rounding (tie + search). *)
 From Coq Require Import List Arith ZArith QArith Qcanon.
 From OV Require Import Base.Panic Base.Arith Model.Vector Model.Matrix Model.Newton
-  Proofs.Matrix Proofs.Newton Inst.QcInst Legacy.C18Refuted.
+  Proofs.Matrix Proofs.Newton Proofs.NewtonJac Inst.QcInst Legacy.C18Refuted.
 Import ListNotations.
 Local Open Scope nat_scope.
 
@@ -75,6 +77,47 @@ Example jacobian_calls_nonvacuous :
   exists J evs, jacobian (NReal AQ) f31 x31 d31 = Ok (J, evs) /\
     map (map this) evs = [[1#1; 2#1; 3#1]; [1025#1024; 2#1; 3#1]; [1#1; 2049#1024; 3#1]; [1#1; 2#1; 3073#1024]]%Q.
 Proof. do 2 eexists. split; [vm_compute; reflexivity|]. vm_compute. reflexivity. Qed.
+
+(* entry (i, j) is the forward difference quotient ( f_i(x + d e_j) - f_i(x) ) / d *)
+Theorem jacobian_entry : forall (O : NOps), RingLaws (NA O) ->
+  forall (f : list (NA O) -> res (list (NA O))) (x : list (NA O)) (d : NA O) J evs,
+  jacobian O f x d = Ok (J, evs) ->
+  exists f0, f x = Ok f0 /\ rows J = length f0 /\ cols J = length x /\
+    forall i j, i < length f0 -> j < length x ->
+      exists fj q, f (perturbed O x d j) = Ok fj /\
+                   div (sub (nth i fj zero) (nth i f0 zero)) d = Ok q /\ mget J i j = Ok q.
+Proof. intros O RL f x d J evs H. exact (jacobian_entry_lemma O RL f x d J evs H). Qed.
+Check jacobian_entry : forall (O : NOps), RingLaws (NA O) ->
+  forall (f : list (NA O) -> res (list (NA O))) (x : list (NA O)) (d : NA O) J evs,
+  jacobian O f x d = Ok (J, evs) ->
+  exists f0, f x = Ok f0 /\ rows J = length f0 /\ cols J = length x /\
+    forall i j, i < length f0 -> j < length x ->
+      exists fj q, f (perturbed O x d j) = Ok fj /\
+                   div (sub (nth i fj zero) (nth i f0 zero)) d = Ok q /\ mget J i j = Ok q.
+Print Assumptions jacobian_entry.
+(* non-vacuity: jacobian_calls_nonvacuous above exhibits an input with jacobian ... = Ok *)
+
+(* exact on affine maps over a field: the Jacobian of x -> Mx + c is M itself *)
+Theorem jacobian_affine : forall (O : NOps), FieldLaws (NA O) ->
+  forall (M : matrix (NA O)) (c x : list (NA O)) (d : NA O),
+  d <> zero -> wf M -> length x = cols M ->
+  exists evs, jacobian O (fun p => Ok (aff O M c p)) x d = Ok (M, evs).
+Proof. intros O FL M c x d Hd W Lx. exact (jacobian_affine_eq O FL M c x d Hd W Lx). Qed.
+Check jacobian_affine : forall (O : NOps), FieldLaws (NA O) ->
+  forall (M : matrix (NA O)) (c x : list (NA O)) (d : NA O),
+  d <> zero -> wf M -> length x = cols M ->
+  exists evs, jacobian O (fun p => Ok (aff O M c p)) x d = Ok (M, evs).
+Print Assumptions jacobian_affine.
+
+(* the hypotheses hold for a 2 x 3 matrix (m < n) at Qc, delta = 1/1024 *)
+Example jacobian_affine_nonvacuous :
+  let M := @mkM AQ [q 1 1; q 2 1; q 3 1; q (-1) 2; q 0 1; q 5 4] 2 3 in
+  d31 <> zero /\ wf M /\ length x31 = cols M /\
+  exists evs, jacobian (NReal AQ) (fun p => Ok (aff (NReal AQ) M [q 1 2; q 7 1] p)) x31 d31 = Ok (M, evs).
+Proof.
+  intros M. assert (Hd : d31 <> zero) by (intros H; apply (f_equal this) in H; discriminate).
+  repeat split; auto. exact (jacobian_affine (NReal AQ) AQ_FieldLaws M _ x31 d31 Hd eq_refl eq_refl).
+Qed.
 
 (* the legacy variant (set_col guard `rows <= col`) panics on the same input *)
 Theorem jacobian_legacy_is_refuted :
